@@ -43,6 +43,19 @@ CHECKS = {
         "after every event.",
    design_ref="DESIGN.md §4 C08",
    note="limit >= 1; single consumer; bytes compared exactly in TLA+ (small alphabets, pieces <= ~200 bytes); " + TRUST),
+ "C15": dict(
+   technique="TLC decides every recorded request/response pair of a real add_static() RequestHandler (raw request bytes on an "
+             "in-memory transport) against two explicit TLA+ reference machines (StaticServe.tla: tree/symlink confinement "
+             "and RFC 9110 range/conditional arithmetic) whose request spaces TLC also enumerates exhaustively while "
+             "checking the references' own sanity invariants",
+   text="Exhaustive bounded reference models (983,672 traversal targets x options; 19,696 range/conditional requests) plus "
+        "conformance of the implementation on the complete (thorough) or stratified-sampled (quick) request space; the "
+        "confinement oracle is one-sided (nothing outside the root is ever served or listed) and also fixes the positive "
+        "outcome for canonical spellings; range results must be one of the RFC-permitted outcomes and internally consistent.",
+   design_ref="DESIGN.md §4 C15",
+   note="fixed 15-node tree, 22 segment spellings x <= 4 segments, file sizes 0..4 and the listed header value classes; POSIX "
+        "only; no stat/open races; bodies via the loop.sendfile fallback or the NOSENDFILE path, never kernel sendfile; one "
+        "request per connection; pathlib/the kernel are ground truth for what a path resolves to; " + TRUST),
 }
 
 NA_REASON = "check not built yet (in progress)"
